@@ -142,14 +142,16 @@ let () =
       run_world "clicopy" kv (List.concat_map (fun (s, d) -> [s; d]) jobs)
         (fun long w id ns dflt -> run_copies flocq_fops long o w (List.map (fun (s, d) -> (id s, id d)) jobs) ns dflt)
         (List.map snd jobs));
-  register "clidiff" (fun tk ->
+  let diff_model op tk =
     let kv = kv_of tk in
     apply_live kv;
+    (* as a process, "does not exist" is an error like any other: status 2 *)
+    let emit_readonly op kv st recs = emit_readonly op kv (if op = "cliexit" && st = StNotExist then StErr else st) recs in
     let (sb, sr) = base_rel (get kv "src" "") and (db, dr) = base_rel (get kv "dest" "") in
     let ns = nows kv in
     let aid = getz kv "archive" (-1) and from = getz kv "from" 0 and until = getz kv "until" 0 in
     let globbed = get kv "files" "-" <> "-" || String.contains sr '*' || String.contains sr '?' || String.contains sr '[' in
-    if get kv "files" "-" = "BADPATTERN" then emit_readonly "clidiff" kv StErr [] else
+    if get kv "files" "-" = "BADPATTERN" then emit_readonly op kv StErr [] else
     let pairs =
       if globbed then List.map (fun f ->
           let rel = String.sub f (String.length sb + 1) (String.length f - String.length sb - 1) in (f, join db rel))
@@ -157,12 +159,16 @@ let () =
       else [(join sb sr, join db (if dr = "" then sr else dr))] in
     (* dest=ROOT: the destination base is the served root itself, i.e. every file is compared with itself *)
     let pairs = if db = "ROOT" then List.map (fun (s, _) -> (s, s)) pairs else pairs in
-    if globbed && pairs = [] then emit_readonly "clidiff" kv StNotExist []   (* a pattern matching nothing is an error (not-exist) *)
+    if globbed && pairs = [] then emit_readonly op kv StNotExist []   (* a pattern matching nothing is an error (not-exist) *)
     else begin
       let jobs = List.mapi (fun i (s, d) -> diff_one fl_sub (lookup s) (lookup d) aid from until (nth_now ns i (clock0 kv))) pairs in
       let (st, outs) = run_diffs jobs in
-      emit_readonly "clidiff" kv st (List.concat outs)
-    end);
+      emit_readonly op kv st (List.concat outs)
+    end in
+  register "clidiff" (diff_model "clidiff");
+  (* the same command run as a process (cmd/whispertool/main.go): the exit status is 0 for success, 1 for
+     "difference found", 2 for every error *)
+  register "cliexit" (diff_model "cliexit");
   register "clisum" (fun tk ->
     let kv = kv_of tk in
     let items = parse_items kv in
